@@ -31,15 +31,19 @@ pub fn stub_format(_args: core::fmt::Arguments<'_>) -> String {
 }
 
 pub mod c01;
+pub mod c03;
 pub mod c04;
 pub mod c05;
+pub mod c06;
 pub mod c07;
 pub mod c10;
 pub mod c11;
 pub mod c12;
 pub mod c13;
 pub mod c14;
+pub mod c15;
 pub mod c16;
+pub mod c17;
 pub mod c18;
 pub mod c19;
 
@@ -47,8 +51,10 @@ pub mod c19;
 pub fn registry() -> Vec<(&'static str, fn(&mut BytesSrc))> {
     let mut v: Vec<(&'static str, fn(&mut BytesSrc))> = Vec::new();
     c01::register(&mut v);
+    c03::register(&mut v);
     c04::register(&mut v);
     c05::register(&mut v);
+    c06::register(&mut v);
     c07::register(&mut v);
     c10::register(&mut v);
     c11::register(&mut v);
@@ -58,5 +64,7 @@ pub fn registry() -> Vec<(&'static str, fn(&mut BytesSrc))> {
     c18::register(&mut v);
     c19::register(&mut v);
     c14::register(&mut v);
+    c15::register(&mut v);
+    c17::register(&mut v);
     v
 }
